@@ -15,6 +15,7 @@ import Driver.C02
 import Driver.C08
 import Driver.C09
 import Driver.C17
+import Driver.C19
 /-!
 # Line-protocol driver
 
@@ -44,6 +45,7 @@ def dispatch (inp obs : List String) : Verdict :=
   | some "C08" => Driver.C08.run inp obs
   | some "C09" => Driver.C09.run inp obs
   | some "C17" => Driver.C17.run inp obs
+  | some "C19" => Driver.C19.run inp obs
   | _ => { agree := false, model := "unknown-model" }
 
 partial def loop (h : IO.FS.Stream) (out : IO.FS.Stream) : IO Unit := do
